@@ -25,6 +25,12 @@ var c12Queries = []string{
 	"SELECT * FROM (SELECT a, ASYNC.vid(a + 1) AS v FROM t WHERE a > ?) d",
 	"SELECT a, (SELECT ASYNC.vid(p) AS w FROM items) AS s FROM t WHERE a > ?",
 	"WITH c AS (SELECT a, ASYNC.vid(a) AS v FROM t), d AS (SELECT * FROM c WHERE a > ?) SELECT * FROM d",
+	"SELECT a, AWAIT(ASYNC.vid(a + 1)) AS v, AWAIT(a) AS w FROM t WHERE a > ?",
+	// chains of asynchronous slots, with a NULL at the end
+	"SELECT a, ASYNC.vid(ASYNC.vnul(a)) AS v FROM t WHERE a > ?",
+	"SELECT a, ASYNC.vid(ASYNC.vid(a)) AS w FROM t WHERE a > ?",
+	"SELECT x.a AS a, ASYNC.vid(x.q) AS v FROM (SELECT a, ASYNC.vnul(a) AS q FROM t WHERE a > ?) x",
+	"SELECT a, FIRST(ARRAY(ASYNC.vnul(a))) AS f FROM t WHERE a > ?",
 	// NULL (missing) operands
 	"SELECT a + zz AS s, zz * 2 AS m, -zz AS n, zz DIV 2 AS d FROM t WHERE a > ?",
 	"SELECT CASE WHEN a > ? THEN a * zz ELSE zz END AS c FROM t",
@@ -47,6 +53,7 @@ func H_C12_plain() {
 	qi := verif.Choose("query", len(c12Queries))
 	n := verif.Choose("rows", maxRows(2, 2)+1)
 	RegisterFunction("vid", idFunc)
+	RegisterFunction("vnul", func(q *Query, cur Map, o *FunctionOptions, args []any) (any, error) { return nil, nil })
 	hasAsync := false
 	for i := 0; i+5 <= len(c12Queries[qi]); i++ {
 		if c12Queries[qi][i:i+5] == "ASYNC" {
@@ -56,7 +63,7 @@ func H_C12_plain() {
 	if hasAsync && n > 1+verif.Tier() {
 		verif.Assume(false) // queries with goroutines: one row (two in the thorough tier)
 	}
-	verif.Opt("maporder", 1)
+	verif.Opt("maporder", 3)
 	verif.Opt("schedules", 1)
 	verif.Opt("preempt", 1)
 	doc, rows := nestedDoc(n, 1)
